@@ -534,6 +534,29 @@ def run_check(prop, tier, master, only_index=None):
     families = {}
     first_digests = {}
     pm_jobs = []
+    # Regression scenarios: the minimised replays of every defect found so far (findings/baseline-*)
+    # are executed first, in every tier, so that a revert of a repair is caught deterministically.
+    regress = []
+    if only_index is None:
+        import glob
+
+        for path in sorted(glob.glob(os.path.join(VERIF, "findings", f"baseline-{prop}-*.json"))):
+            try:
+                with open(path) as fh:
+                    doc = json.load(fh)
+                regress.append((os.path.basename(path), doc["scenario"] if "scenario" in doc else doc))
+            except Exception as ex:  # noqa: BLE001
+                harness_errors.append((-1, f"cannot load {path}: {ex}"))
+    if regress:
+        outs_all = run_many([scn for _, scn in regress])
+        for k, ((name, scn), outs) in enumerate(zip(regress, outs_all)):
+            evaluations += 1
+            worlds_run += len(outs)
+            viols, errs = evaluate(scn, outs)
+            if errs:
+                harness_errors.append((-1 - k, f"{name}: {errs[0]}"))
+            elif viols:
+                failing.append((-1 - k, scn, viols))
     indices = range(n) if only_index is None else [only_index]
     chunk = 48
     idx_list = list(indices)
@@ -730,6 +753,7 @@ def run_check(prop, tier, master, only_index=None):
             "distinct_hash_seeds": len(hashseeds),
             "distinct_enum_seeds": len(enum_seeds),
             "families": families,
+            "regression_scenarios": [name for name, _ in regress],
             "determinism_gate": {"rerun": len(gate_idx), "unstable": len(unstable)},
             "process_model_validation": pm if prop == "C20" else None,
             "known_findings_hit": sorted(set(known_lines)),
